@@ -75,5 +75,7 @@ pub mod c09;
 pub mod c10;
 pub mod c11;
 pub mod c13;
+#[cfg(kani)]
+pub mod c14;
 pub mod c19;
 pub mod gen_c20;
